@@ -256,6 +256,9 @@ def build(spec, p, symbolic, hprio=None, hprio_comp=None):
         workflow=M.workflow,
         organization=M.org,
     )
+    # "decoy_wf": a second BaseWorkflow over some of the same task objects (e.g. a partial chart); it is never simulated
+    if spec.get("decoy_wf"):
+        M.decoy_wf = BaseWorkflow([M.tasks[i] for i in spec["decoy_wf"]])
     run = spec.get("run", {})
     M.run = {
         "abs": vlist(run.get("abs", []), p),
